@@ -2107,10 +2107,29 @@ BTree_pop(BTree *self, PyObject *args)
     }
 
     /* No default given.  The only difference in this case is the error
-    * message, which depends on whether the tree is empty.
+    * message, which depends on whether the tree is empty.  Looking at the
+    * tree may have to load its state (the root is not kept pinned while the
+    * levels below it are searched, so it can have been deactivated
+    * meanwhile), and that must not run with the KeyError still set.
     */
-    if (BTree_length_or_nonzero(self, 1) == 0) /* tree is empty */
-        PyErr_SetString(PyExc_KeyError, "pop(): BTree is empty");
+    {
+        PyObject *et, *ev, *tb;
+        int nonempty;
+
+        PyErr_Fetch(&et, &ev, &tb);
+        nonempty = BTree_length_or_nonzero(self, 1);
+        if (nonempty > 0)
+        {
+            PyErr_Restore(et, ev, tb);
+            return NULL;
+        }
+        Py_XDECREF(et);
+        Py_XDECREF(ev);
+        Py_XDECREF(tb);
+        if (nonempty == 0) /* tree is empty */
+            PyErr_SetString(PyExc_KeyError, "pop(): BTree is empty");
+        /* else: the error raised while loading the state */
+    }
     return NULL;
 }
 
